@@ -121,7 +121,7 @@ Definition dgraph_ok : bool :=
 (* every strand position sits where the layout says, inside the arrays, and is the node process_results reads *)
 Definition place_okb : bool :=
   forallb (fun '(n, (_, l, _)) =>
-     (match afind (l_tstart lay) n with Some _ => true | None => false end) &&
+     (Nat.eqb l 0 || match afind (l_tstart lay) n with Some _ => true | None => false end) &&
      forallb (fun o => Nat.eqb (enc p lay (spos p so n o)) (tstart_of lay n + o) && Nat.ltb (tstart_of lay n + o) (l_npos lay)) (seq 0 l))
     (p_strands p).
 
@@ -142,7 +142,7 @@ Definition spec_okb : bool :=
   nodup_str (map fst (p_sups p)) && nodup_str (map fst (p_strands p)) && sups_okb (p_sups p) 0 &&
   forallb (fun '(_, (items, l, _)) => forallb (item_okb (List.length (p_sups p))) items && Nat.eqb l (refs_total p items)) (p_strands p) &&
   (if so then nodup_str (map fst (p_structs p)) &&
-              forallb (fun '(n, _) => match first_inst_in p (p_structs p) n with Some _ => true | None => false end) (p_strands p) &&
+              forallb (fun '(n, (_, l, _)) => Nat.eqb l 0 || match first_inst_in p (p_structs p) n with Some _ => true | None => false end) (p_strands p) &&
               forallb (fun '(_, (names, _, len)) => Nat.eqb len (total p names)) (p_structs p)
    else true) &&
   nodup_str (map fst (p_bases p) ++ map fst (p_sups p)).
@@ -202,8 +202,8 @@ Proof. unfold spec_okb. intros H. apply andb_prop in H. destruct H as [H H6]. ap
     apply (index_of_nth _ n H1 0 j N).
   - intros SO sn v Hin. rewrite SO in H5. apply andb_prop in H5. destruct H5 as [H5 _]. apply andb_prop in H5. destruct H5 as [A _].
     apply nodup_str_NoDup in A. apply afind_In; assumption.
-  - intros SO n v Hin. rewrite SO in H5. apply andb_prop in H5. destruct H5 as [H5 _]. apply andb_prop in H5. destruct H5 as [_ B].
-    rewrite forallb_forall in B. specialize (B _ Hin). cbn in B.
+  - intros SO n items l d Hin NZ. rewrite SO in H5. apply andb_prop in H5. destruct H5 as [H5 _]. apply andb_prop in H5. destruct H5 as [_ B].
+    rewrite forallb_forall in B. specialize (B _ Hin). cbn in B. apply orb_prop in B. destruct B as [B|B]; [apply Nat.eqb_eq in B; contradiction|].
     destruct (first_inst_in p (p_structs p) n); [discriminate | discriminate].
   - intros k n t Hk. unfold base_index. assert (N : nth_error (map fst (p_bases p)) k = Some n) by (rewrite nth_error_map, Hk; reflexivity).
     apply NoDup_app_l in H6. apply (index_of_nth _ n H6 0 k N).
